@@ -14,3 +14,37 @@ def fill(add):
         "Trusts numpy broadcasting/sum in the reference evaluator (cross-checked against numpy.einsum on a sample); numpy backend; networks up to 12 tensors and ~1e6 dense volume.",
         "DESIGN.md 1/C01",
     )
+
+    HIST = "model-based stateful property testing (Hypothesis-generated operation histories, op-list interpreter vs reference model)"
+    add(
+        "C02",
+        "exploration",
+        HIST,
+        "Generated histories of tree transformations interleaved with contractions/queries, observed on the real tree, on a copy, or not at all, against an exact dense reference after every observed step. Finds stale-cache and mis-update defects reachable in <=10 steps on <=7 tensors; no proof of absence.",
+        "Transformations that raise are counted and rolled back, not judged; pools are not used (parallel=False); numpy backend.",
+        "DESIGN.md 1/C02",
+    )
+    add(
+        "C03",
+        "exploration",
+        GEN,
+        "Generated network x tree x sliced/projected labels x traversal order; every reported figure compared with an independent definition-level cost model (exact integers) and with the shapes recorded during real execution.",
+        "Trusts the transcription of the property's definitions in vlib/ref.py:CostRef; numpy backend.",
+        "DESIGN.md 1/C03",
+    )
+    add(
+        "C04",
+        "exploration",
+        HIST,
+        "Same history machine as C02 with the cost oracle: after each observed step all figures and per-node index sets equal a rebuild from (path, sliced labels) and the independent cost model; slice/unslice round trips restore snapshots; originals survive copies.",
+        "As C02; the rebuild uses cotengra's own from_path/remove_ind, the independent CostRef guards against defects shared by both.",
+        "DESIGN.md 1/C04",
+    )
+    add(
+        "C06",
+        "exploration",
+        GEN + "; exhaustive over slice numbers within each case",
+        "Generated network x tree x removal list; within each case every slice number is checked (bijection of slice keys, per-slice value, gather, lazily generated chunks tiling the output, full contract) against the fixed-label dense reference.",
+        "Product of sliced sizes <= 96 per case; numpy backend.",
+        "DESIGN.md 1/C06",
+    )
